@@ -334,9 +334,10 @@ func (c *Ctx) Finish() int {
 	os.MkdirAll(filepath.Join(Root, "replays"), 0o755)
 	for _, key := range c.failOrder {
 		r := c.fails[key]
-		// determinism before belief: replay the first recorded case 5x
+		// determinism before belief: re-execute the first recorded case 5x on its own
+		reproducible := true
 		if c.Prop.RunCase != nil && len(r.cases) > 0 {
-			for i := 0; i < 5; i++ {
+			for i := 0; i < 5 && reproducible; i++ {
 				fs := c.runCaseLocked(r.cases[0])
 				found := false
 				for _, f := range fs {
@@ -345,8 +346,7 @@ func (c *Ctx) Finish() int {
 					}
 				}
 				if !found {
-					c.internalErr = append(c.internalErr, fmt.Sprintf("violation %q did not reproduce on re-execution %d of its recorded case %s", key, i+1, r.cases[0]))
-					break
+					reproducible = false
 				}
 			}
 		}
@@ -364,12 +364,19 @@ func (c *Ctx) Finish() int {
 		if r.coded {
 			rep["failing_code_range"] = []int64{r.codeLo, r.codeHi}
 		}
+		rep["reproducible_in_isolation"] = reproducible
 		b, _ := json.MarshalIndent(rep, "", " ")
 		os.WriteFile(path, b, 0o644)
 		nviol++
 		extra := ""
 		if r.coded {
 			extra = fmt.Sprintf(" codes=%d..%d", r.codeLo, r.codeHi)
+		}
+		if !reproducible {
+			// The exploration observed the failure on the real code, but the recorded case alone does not
+			// show it again: the implementation's behaviour depends on calls made before it (hidden state
+			// shared between calls).  Still a violation of a universally quantified property; said so.
+			extra += " reproducible_in_isolation=false(the failure depends on earlier calls: state kept between calls)"
 		}
 		lines = append(lines, fmt.Sprintf("VIOLATION property=%s replay=%s key=%s count=%d%s :: %s", id, path, key, r.count, extra, r.fails[0].Msg))
 	}
